@@ -110,7 +110,7 @@ func (s *MemoryStore) seek(rng SeekRange, f func(k, v []byte) bool, lock func(),
 	}
 	if rng.Backwards {
 		isKeyOK = func(key string) bool {
-			return strings.HasPrefix(key, sPrefix) && (lStart == 0 || cmp.Compare(key[lPrefix:], sStart) <= 0)
+			return strings.HasPrefix(key, sPrefix) && (lStart == 0 || cmp.Compare(key[lPrefix:], sStart) <= 0 || strings.HasPrefix(key[lPrefix:], sStart))
 		}
 	}
 	var cmpFunc = getCmpFunc(rng.Backwards)
